@@ -20,8 +20,9 @@
 (***************************************************************************)
 EXTENDS MC_LoaderMT, Json, IOUtils
 Cases == JsonDeserialize(IOEnv.VERIF_CASES)
-VARIABLES cid, cph, ok, drift
-cvars == <<cid, cph, ok, drift, vars>>
+VARIABLES cid, cph, ok, drift,
+          aok     \* the decision itself is the old or the new policy's (without the settled-state part of the verdict)
+cvars == <<cid, cph, ok, drift, aok, vars>>
 ToSet(s) == {s[i] : i \in 1..Len(s)}
 Body2(b) == CASE b.k = "roles" -> RolesB(ToSet(b.r)) [] b.k = "alias" -> Alias(b.n) [] b.k = "any" -> AnyB [] OTHER -> None
 Cont(pairs) == [n \in Names |-> IF \E i \in 1..Len(pairs) : pairs[i][1] = n
@@ -42,11 +43,13 @@ Verdict(c) == c.crashed = 0 /\ Atomic(c) /\ (c.check_final = 1 => Settled(c))
 \* of the reloader is one the specification's reloader passes through
 Bound(c) == c.shape # "B_parked" => [rules |-> Cont(c.rules), frules |-> Cont(c.frules)] \in ReloadStates
 
-CInit == /\ cid \in 1..Len(Cases) /\ cph = 0 /\ ok = TRUE /\ drift = FALSE
+CInit == /\ cid \in 1..Len(Cases) /\ cph = 0 /\ ok = TRUE /\ drift = FALSE /\ aok = TRUE
          /\ sh = OldShared /\ fs = FsOld /\ edited = FALSE /\ lock = 0 /\ lo = [t \in Threads |-> Idle("n")]
          /\ startedAfterEdit = [t \in Threads |-> FALSE]
-CNext == cph = 0 /\ cph' = 1 /\ ok' = Verdict(Cases[cid]) /\ drift' = ~Bound(Cases[cid]) /\ UNCHANGED <<cid, vars>>
+CNext == cph = 0 /\ cph' = 1 /\ ok' = Verdict(Cases[cid]) /\ drift' = ~Bound(Cases[cid])
+         /\ aok' = (Cases[cid].crashed = 0 /\ Atomic(Cases[cid])) /\ UNCHANGED <<cid, vars>>
 CSpec == CInit /\ [][CNext]_cvars
 Conforms == ok
+AtomicOK == aok
 NoDrift == ~drift
 =============================================================================
